@@ -944,7 +944,7 @@ Section C.
     forall n w w', ex n b w <> Some (CDone GBreak w') /\ ex n b w <> Some (CDone GFallthrough w').
 
   Definition crelS (a a' : clabel * list stmt) : Prop :=
-    fst a = fst a' /\ sim (snd a) (snd a') /\ Forall srcok (snd a) /\ nofb (snd a).
+    fst a = fst a' /\ sim (snd a) (snd a') /\ Forall srcok (snd a) /\ (nofb (snd a) \/ Forall srcok (snd a')).
 
   Lemma flat_done x g w' : flat x = CDone g w' -> g <> GReturn -> x = CDone g w'.
   Proof. destruct x; cbn; intros H Hg; try exact H. inversion H; subst. congruence. Qed.
@@ -952,25 +952,85 @@ Section C.
   Lemma norm_mono' n m (x : compl) r : n <= m -> norm n (Some x) = Some r -> norm m (Some x) = Some r.
   Proof. intros. eapply norm_mono; eauto. Qed.
 
-  Lemma exfrom_sim d d' : Forall2 crelS d d' ->
-    forall n w x, exfrom n d w = Some x -> exists m x', exfrom m d' w = Some x' /\ norm m (Some x') = Some (flat x).
+  Lemma exfrom_mono n m l w x : n <= m -> exfrom n l w = Some x -> exfrom m l w = Some x.
   Proof.
-    intros Hd n w x H. destruct n as [|n]; [discriminate|]. rewrite exec_from_S in H.
-    inversion Hd as [|[lab b] [lab' b'] r r' [Hl [Hsim [Hsrc Hnofb]]] Hr]; subst.
+    induction 1 as [|m Hle IH]; auto. intros H.
+    apply (proj1 (proj2 (proj2 (exec_mono1 aden cden tden kval yden env m)))). auto.
+  Qed.
+
+  Lemma flat_inj_done x y g w' : flat x = flat y -> y = CDone g w' -> g <> GReturn -> x = CDone g w'.
+  Proof. intros H -> Hg. cbn in H. apply flat_done in H; assumption. Qed.
+
+  Lemma exfrom_sim n : forall d d' w x, Forall2 crelS d d' ->
+    exfrom n d w = Some x -> exists m x', exfrom m d' w = Some x' /\ norm m (Some x') = Some (flat x).
+  Proof.
+    induction n as [|n IH]; intros d d' w x Hd H; [discriminate|]. rewrite exec_from_S in H.
+    inversion Hd as [|[lab b] [lab' b'] r r' [Hl [Hsim [Hsrc Hdis]]] Hr]; subst.
     - inversion H; subst. exists 2, (CDone GNormal w). split; reflexivity.
     - cbn [fst snd] in *. subst lab'.
       destruct (ex n b w) as [xb|] eqn:Eb; [|discriminate].
-      assert (x = xb).
-      { destruct xb as [g w'| | | |]; try (inversion H; reflexivity).
-        destruct g; try (inversion H; reflexivity); exfalso; destruct (Hnofb n w w') as [Hb1 Hb2]; first [apply Hb1; exact Eb|apply Hb2; exact Eb]. }
-      subst xb. clear H.
       destruct (Hsim _ _ _ (N_flat _ _ Hsrc Eb)) as [m1 Hm1]. unfold RwBase.N in Hm1.
       destruct (ex m1 b' w) as [xb'|] eqn:Eb'; [|discriminate].
-      exists (S m1), xb'. split.
-      + rewrite exec_from_S, Eb'. destruct xb' as [g w'| | | |]; try reflexivity.
-        destruct g; try reflexivity; exfalso; cbn in Hm1; inversion Hm1 as [Hf]; symmetry in Hf;
-          apply flat_done in Hf; try discriminate; subst x; destruct (Hnofb n w w') as [Hb1 Hb2]; first [apply Hb1; exact Eb|apply Hb2; exact Eb].
-      + eapply norm_mono'; [|exact Hm1]. lia.
+      destruct Hdis as [Hnofb|Hsrc'].
+      + (* the clause never leaves by break or fallthrough *)
+        assert (x = xb).
+        { destruct xb as [g w'| | | |]; try (inversion H; reflexivity).
+          destruct g; try (inversion H; reflexivity); exfalso; destruct (Hnofb n w w') as [Hb1 Hb2]; first [apply Hb1; exact Eb|apply Hb2; exact Eb]. }
+        subst xb. clear H.
+        exists (S m1), xb'. split.
+        * rewrite exec_from_S, Eb'. destruct xb' as [g w'| | | |]; try reflexivity.
+          destruct g; try reflexivity; exfalso; cbn in Hm1; inversion Hm1 as [Hf]; symmetry in Hf;
+            apply flat_done in Hf; try discriminate; subst x; destruct (Hnofb n w w') as [Hb1 Hb2]; first [apply Hb1; exact Eb|apply Hb2; exact Eb].
+        * eapply norm_mono'; [|exact Hm1]. lia.
+      + (* both clause bodies are native code: they leave the clause the same way *)
+        assert (Hflat : flat xb' = flat xb).
+        { pose proof (N_flat _ _ Hsrc' Eb') as Hn. unfold RwBase.N in Hn.
+          rewrite (@exm _ _ _ aden cden tden kval yden env m1 (S m1) b' w xb' ltac:(lia) Eb') in Hn.
+          pose proof (@norm_mono' m1 (S m1) xb' _ ltac:(lia) Hm1) as Hn2. congruence. }
+        assert (Hsame : forall g w', g <> GReturn -> (xb = CDone g w' <-> xb' = CDone g w')).
+        { intros g w' Hg. split; intros E.
+          - eapply flat_inj_done; [exact Hflat|exact E|exact Hg].
+          - eapply flat_inj_done; [symmetry; exact Hflat|exact E|exact Hg]. }
+        destruct xb as [g w1|sv w1|w1|w1 pv|].
+        * destruct g.
+          -- inversion H; subst. exists (S m1), xb'. split; [|eapply norm_mono'; [|exact Hm1]; lia].
+             rewrite exec_from_S, Eb'. rewrite (proj1 (Hsame GNormal w1 ltac:(discriminate)) eq_refl). reflexivity.
+          -- inversion H; subst. exists (S m1), (CDone GNormal w1). split; [|reflexivity].
+             rewrite exec_from_S, Eb'. rewrite (proj1 (Hsame GBreak w1 ltac:(discriminate)) eq_refl). reflexivity.
+          -- inversion H; subst. exists (S m1), xb'. split; [|eapply norm_mono'; [|exact Hm1]; lia].
+             rewrite exec_from_S, Eb'. rewrite (proj1 (Hsame GContinue w1 ltac:(discriminate)) eq_refl). reflexivity.
+          -- inversion H; subst. exists (S m1), xb'. split; [|eapply norm_mono'; [|exact Hm1]; lia].
+             rewrite exec_from_S, Eb'. destruct xb' as [g' w'| | | |]; try reflexivity.
+             destruct g'; try reflexivity; exfalso.
+             ++ pose proof (proj2 (Hsame GBreak w' ltac:(discriminate)) eq_refl). discriminate.
+             ++ pose proof (proj2 (Hsame GFallthrough w' ltac:(discriminate)) eq_refl). discriminate.
+          -- pose proof (proj1 (Hsame GFallthrough w1 ltac:(discriminate)) eq_refl) as E'. subst xb'.
+             inversion Hr as [|c2 c2' r2 r2' Hc2 Hr2]; subst.
+             ++ inversion H; subst. exists (S m1), CStuck. split; [|reflexivity]. rewrite exec_from_S, Eb'. reflexivity.
+             ++ destruct (IH _ _ w1 x Hr H) as [m2 [x' [Hx' Hn]]].
+                exists (S (m1 + m2)), x'. split; [|eapply norm_mono'; [|exact Hn]; lia].
+                rewrite exec_from_S. rewrite (@exm _ _ _ aden cden tden kval yden env m1 (m1 + m2) b' w _ ltac:(lia) Eb').
+                eapply (@exfrom_mono m2 (m1 + m2)); [lia|exact Hx'].
+        * inversion H; subst. exists (S m1), xb'. split; [|eapply norm_mono'; [|exact Hm1]; lia].
+          rewrite exec_from_S, Eb'. destruct xb' as [g' w'| | | |]; try reflexivity.
+          destruct g'; try reflexivity; exfalso.
+          -- pose proof (proj2 (Hsame GBreak w' ltac:(discriminate)) eq_refl). discriminate.
+          -- pose proof (proj2 (Hsame GFallthrough w' ltac:(discriminate)) eq_refl). discriminate.
+        * inversion H; subst. exists (S m1), xb'. split; [|eapply norm_mono'; [|exact Hm1]; lia].
+          rewrite exec_from_S, Eb'. destruct xb' as [g' w'| | | |]; try reflexivity.
+          destruct g'; try reflexivity; exfalso.
+          -- pose proof (proj2 (Hsame GBreak w' ltac:(discriminate)) eq_refl). discriminate.
+          -- pose proof (proj2 (Hsame GFallthrough w' ltac:(discriminate)) eq_refl). discriminate.
+        * inversion H; subst. exists (S m1), xb'. split; [|eapply norm_mono'; [|exact Hm1]; lia].
+          rewrite exec_from_S, Eb'. destruct xb' as [g' w'| | | |]; try reflexivity.
+          destruct g'; try reflexivity; exfalso.
+          -- pose proof (proj2 (Hsame GBreak w' ltac:(discriminate)) eq_refl). discriminate.
+          -- pose proof (proj2 (Hsame GFallthrough w' ltac:(discriminate)) eq_refl). discriminate.
+        * inversion H; subst. exists (S m1), xb'. split; [|eapply norm_mono'; [|exact Hm1]; lia].
+          rewrite exec_from_S, Eb'. destruct xb' as [g' w'| | | |]; try reflexivity.
+          destruct g'; try reflexivity; exfalso.
+          -- pose proof (proj2 (Hsame GBreak w' ltac:(discriminate)) eq_refl). discriminate.
+          -- pose proof (proj2 (Hsame GFallthrough w' ltac:(discriminate)) eq_refl). discriminate.
   Qed.
 
   Lemma pick_clause_sim tv cs cs' : Forall2 crelS cs cs' ->
@@ -1004,7 +1064,7 @@ Section C.
     inversion Hl as [|[lab b] [lab' b'] r r' Hc Hr]; subst.
     - pose proof (default_from_sim Ha) as Hd.
       destruct (default_from a) as [d|], (default_from a') as [d'|] eqn:Ed'; try contradiction.
-      + destruct (exfrom_sim Hd _ _ H) as [m [x' [Hx' Hn]]]. exists (S m), x'. split.
+      + destruct (@exfrom_sim _ _ _ _ _ Hd H) as [m [x' [Hx' Hn]]]. exists (S m), x'. split.
         * rewrite exec_pick_S, Ed'. exact Hx'.
         * eapply norm_mono'; [|exact Hn]. lia.
       + inversion H; subst. exists 1, (CDone GNormal w). split; [rewrite exec_pick_S, Ed'; reflexivity|reflexivity].
@@ -1017,7 +1077,7 @@ Section C.
       + destruct (IH _ _ _ _ Hr H) as [m [x' [Hx' Hn]]]. exists (S m), x'. split; [rewrite exec_pick_S; exact Hx'|eapply norm_mono'; [|exact Hn]; lia].
       + unfold lift in H. destruct (cden cc (fst w)) as [u bb|u pv|] eqn:Ec.
         * destruct bb.
-          -- destruct (@exfrom_sim ((LCond cc, b) :: r) ((LCond cc, b') :: r') ltac:(constructor; assumption) _ _ _ H) as [m [x' [Hx' Hn]]].
+          -- destruct (@exfrom_sim _ ((LCond cc, b) :: r) ((LCond cc, b') :: r') _ _ ltac:(constructor; assumption) H) as [m [x' [Hx' Hn]]].
              exists (S m), x'. split; [rewrite exec_pick_S; unfold lift; rewrite Ec; exact Hx'|eapply norm_mono'; [|exact Hn]; lia].
           -- destruct (IH _ _ _ _ Hr H) as [m [x' [Hx' Hn]]].
              exists (S m), x'. split; [rewrite exec_pick_S; unfold lift; rewrite Ec; exact Hx'|eapply norm_mono'; [|exact Hn]; lia].
@@ -1044,10 +1104,10 @@ Section C.
       - unfold lift in Hx. destruct (tden t (fst w)) as [u tv|u pv|] eqn:Et.
         + pose proof (pick_clause_sim tv Hc) as Hp. pose proof (default_from_sim Hc) as Hd.
           destruct (pick_clause kval tv cs) as [d|], (pick_clause kval tv cs') as [d'|] eqn:Ep'; try contradiction.
-          * destruct (exfrom_sim Hp _ _ Hx) as [m [x' [Hx' Hn]]]. exists (S m), x'. split; [|eapply norm_mono'; [|exact Hn]; lia].
+          * destruct (@exfrom_sim _ _ _ _ _ Hp Hx) as [m [x' [Hx' Hn]]]. exists (S m), x'. split; [|eapply norm_mono'; [|exact Hn]; lia].
             rewrite exec_S. cbn [after_normal]. unfold lift. rewrite Et, Ep'. exact Hx'.
           * destruct (default_from cs) as [d|], (default_from cs') as [d'|] eqn:Ed'; try contradiction.
-            -- destruct (exfrom_sim Hd _ _ Hx) as [m [x' [Hx' Hn]]]. exists (S m), x'. split; [|eapply norm_mono'; [|exact Hn]; lia].
+            -- destruct (@exfrom_sim _ _ _ _ _ Hd Hx) as [m [x' [Hx' Hn]]]. exists (S m), x'. split; [|eapply norm_mono'; [|exact Hn]; lia].
                rewrite exec_S. cbn [after_normal]. unfold lift. rewrite Et, Ep', Ed'. exact Hx'.
             -- inversion Hx; subst. exists 1, (CDone GNormal (u, snd w)). split; [|reflexivity].
                rewrite exec_S. cbn [after_normal]. unfold lift. rewrite Et, Ep', Ed'. reflexivity.
@@ -1302,10 +1362,13 @@ Section C.
   Proof. reflexivity. Qed.
 
   Lemma clause_ok_inv sup k b : clause_ok sup k b = true ->
-    forallb sup b = true /\ forallb (fitsb k) b = true /\ has_break (S k) (SBlock b) = false /\ forallb (okb k true true false) b = true.
+    forallb sup b = true /\
+    (forallb (ny k) b = true \/
+     (forallb (fitsb k) b = true /\ has_break (S k) (SBlock b) = false /\ forallb (okb k true true false) b = true)).
   Proof.
-    unfold clause_ok. intros H. apply andb_prop in H. destruct H as [H H4]. apply andb_prop in H. destruct H as [H H3].
-    apply andb_prop in H. destruct H as [H1 H2]. apply negb_true_iff in H3. auto.
+    unfold clause_ok. intros H. apply andb_prop in H. destruct H as [H1 H]. split; [exact H1|].
+    apply orb_prop in H. destruct H as [H|H]; [left; exact H|right].
+    apply andb_prop in H. destruct H as [H H4]. apply andb_prop in H. destruct H as [H2 H3]. apply negb_true_iff in H3. auto.
   Qed.
 
   Lemma init_ok_srcok i : init_ok i = true -> forall x, i = Some x -> srcok x.
@@ -1329,7 +1392,7 @@ Section C.
       + apply andb_prop in He. destruct He as [_ He]. apply IH; exact He.
     - apply andb_prop in H. destruct H as [Hi Hc]. apply init_ok2_srcok; exact Hi.
     - apply andb_prop in H. destruct H as [Hi Hc]. apply Forall_forall. intros lb Hlb.
-      rewrite forallb_forall in Hc. specialize (Hc lb Hlb). apply clause_ok_inv in Hc. apply HL. tauto.
+      rewrite forallb_forall in Hc. specialize (Hc lb Hlb). apply clause_ok_inv in Hc. apply HL. apply (proj1 Hc).
     - apply andb_prop in H. destruct H as [H Hb]. apply andb_prop in H. destruct H as [Hi Hp]. apply init_ok2_srcok; exact Hi.
     - apply andb_prop in H. destruct H as [H Hb]. apply andb_prop in H. destruct H as [Hi Hp].
       intros x ->. unfold post_okb in Hp. destruct x; try discriminate; constructor.
@@ -1575,6 +1638,137 @@ Section C.
         destruct (@trivQ_push c3 (SSwitch None tag cases') KSwitch c4 Hc3 ltac:(discriminate) Hc4) as [H5 H6]. eapply Hk; eauto.
   Qed.
 
+  (* a statement list without Yield is re-emitted as it is: every kind stays trivial *)
+  Definition is_triv (k : kind) : bool := match k with KTrivial => true | _ => false end.
+  Definition alltrivK (c : blk) (kd : kind) : Prop := forallb is_triv (bkinds c) = true /\ bkind c = kd.
+  Definition goodK (B : blk) (kd : kind) : Prop :=
+    mustNoYield B = true /\ bkind B = kd /\ (kd = KSwitch -> combineRequired B = false).
+  Definition KT (kk : blk -> res blk) (kd : kind) : Prop := forall c B, alltrivK c kd -> kk c = OK B -> goodK B kd.
+
+  Lemma last_triv (ks : list kind) : forallb is_triv ks = true ->
+    match last (map Some ks) None with Some KTrivial | None => True | _ => False end.
+  Proof.
+    induction ks as [|k r IH]; [intros _; exact I|]. cbn [forallb]. intros H. apply andb_prop in H. destruct H as [Hk Hr].
+    destruct r as [|k2 r2]; [destruct k; try discriminate; exact I|]. exact (IH Hr).
+  Qed.
+
+  Lemma alltriv_good c kd : alltrivK c kd -> goodK c kd.
+  Proof.
+    intros [Ht Hk]. pose proof (last_triv _ Ht) as Hl.
+    assert (He : existsb (fun k => match k with KIf | KSwitch => true | _ => false end) (bkinds c) = false).
+    { clear Hl. induction (bkinds c) as [|k r IH]; [reflexivity|]. cbn [forallb] in Ht. apply andb_prop in Ht. destruct Ht as [H1 H2].
+      cbn [existsb]. rewrite (IH H2). destruct k; try discriminate; reflexivity. }
+    split; [|split; [exact Hk|]].
+    - unfold mustNoYield, mayContainsYield, lastKind in *. destruct (last (map Some (bkinds c)) None) as [[]|]; try contradiction; try reflexivity. rewrite He. reflexivity.
+    - intros _. unfold combineRequired, lastKind in *. destruct (last (map Some (bkinds c)) None) as [[]|]; try contradiction; reflexivity.
+  Qed.
+
+  Lemma alltriv_push c s kd c' : alltrivK c kd -> push c s KTrivial = OK c' -> alltrivK c' kd.
+  Proof.
+    intros [Ht Hk] H. unfold push in H. destruct (negb (checked c) || frozen c); [discriminate|]. inversion H; subst. split; cbn [bkinds bkind]; [|reflexivity].
+    rewrite forallb_app, Ht. reflexivity.
+  Qed.
+
+  Lemma gln_cases c B : gln c = OK B -> B = c \/ pushReturn (markCombined c) XNormal KNormal = OK B.
+  Proof.
+    unfold gln. destruct (bkind c); try (intros H; inversion H; auto; fail).
+    all: destruct (returnNormalRequired c) as [[|]|]; cbn [bind]; intros H; try discriminate; try (inversion H; auto; fail); auto.
+  Qed.
+
+  Lemma pushReturn_kinds c e k c' : pushReturn c e k = OK c' -> bkinds c' = bkinds c ++ [k] /\ bkind c' = bkind c.
+  Proof.
+    unfold pushReturn, push. destruct (negb (is_ret_kind k)); [discriminate|].
+    destruct (negb (checked c) || frozen c); cbn [bind]; [discriminate|]. intros H; inversion H; subst. split; reflexivity.
+  Qed.
+
+  Lemma noifsw_triv (ks : list kind) : forallb is_triv ks = true ->
+    existsb (fun k => match k with KIf | KSwitch => true | _ => false end) ks = false.
+  Proof.
+    induction ks as [|k r IH]; [reflexivity|]. cbn [forallb]. intros H. apply andb_prop in H. destruct H as [H1 H2].
+    cbn [existsb]. rewrite (IH H2). destruct k; try discriminate; reflexivity.
+  Qed.
+
+  Lemma gln_good c kd B : alltrivK c kd -> gln c = OK B -> goodK B kd.
+  Proof.
+    intros Hc H. destruct (gln_cases _ H) as [->|H2]; [apply alltriv_good; exact Hc|].
+    pose proof Hc as [Ht Hkd]. destruct (pushReturn_kinds _ _ _ H2) as [Ek Eb]. cbn [markCombined bkinds bkind] in Ek, Eb.
+    split; [|split; [rewrite Eb; exact Hkd|]].
+    - unfold mustNoYield, mayContainsYield. destruct (lastKind_pushReturn _ _ _ H2) as [El _]. rewrite El, Ek, existsb_app, (noifsw_triv _ Ht). reflexivity.
+    - intros E. unfold gln in H. rewrite Hkd, E in H. inversion H; subst. apply (proj2 (proj2 (alltriv_good Hc))). assumption.
+  Qed.
+
+  Lemma rw_ny f :
+    (forall k ss cur kd B, forallb (ny k) ss = true -> alltrivK cur kd -> rw_stmts f ss cur = OK B -> goodK B kd) /\
+    (forall k s isLast cur kd kk B, ny k s = true -> alltrivK cur kd -> KT kk kd -> rw_stmt f s isLast cur kk = OK B -> goodK B kd) /\
+    (forall k s cur kd c', ny k s = true -> alltrivK cur kd -> rw_if f s cur = OK c' -> alltrivK c' kd) /\
+    (forall k init c post b cur kd kk B, ny k (SFor init c post b) = true -> alltrivK cur kd -> KT kk kd ->
+        rw_for f (SFor init c post b) init c post b cur kk = OK B -> goodK B kd) /\
+    (forall k init tag cases cur kd kk B, ny k (SSwitch init tag cases) = true -> alltrivK cur kd -> KT kk kd ->
+        rw_switch f (SSwitch init tag cases) init tag cases cur kk = OK B -> goodK B kd).
+  Proof.
+    induction f as [|f [IH1 [IH2 [IH3 [IH4 IH5]]]]]; [repeat split; intros; discriminate|].
+    assert (Hpushk : forall cur s kd kk B, alltrivK cur kd -> KT kk kd -> (c <- push cur s KTrivial ;; kk c) = OK B -> goodK B kd).
+    { intros cur s kd kk B Hc Hk H. destruct (bind_ok _ _ H) as [c [Hp Hkc]]. eapply Hk; [eapply alltriv_push; eauto|exact Hkc]. }
+    assert (Hsub : forall k l kd2 B, forallb (ny k) l = true -> rw_stmts f l (mkBlock kd2) = OK B -> mustNoYield B = true).
+    { intros k l kd2 B Hl H. destruct (IH1 k l (mkBlock kd2) kd2 B Hl (conj eq_refl eq_refl) H) as [Hm _]. exact Hm. }
+    split; [|split; [|split; [|split]]].
+    - intros k ss cur kd B Hss Hc H. rewrite rw_stmts_S in H. destruct ss as [|s rest].
+      + destruct Hc as [Ht Hkd]. subst kd. destruct (bkind cur) eqn:Ek; try (inversion H; subst; apply alltriv_good; split; [exact Ht|exact Ek]).
+        eapply gln_good; [split; [exact Ht|exact Ek]|exact H].
+      + cbn [forallb] in Hss. apply andb_prop in Hss. destruct Hss as [Hs Hrest]. cbv zeta in H.
+        eapply IH2; [exact Hs|exact Hc| |exact H].
+        intros fol B' Hfol HB'. destruct rest as [|s2 rest2].
+        * destruct Hfol as [Ht Hkd]. subst kd. destruct (bkind fol) eqn:Ek; try (inversion HB'; subst; apply alltriv_good; split; [exact Ht|exact Ek]).
+          eapply gln_good; [split; [exact Ht|exact Ek]|exact HB'].
+        * unfold comb in HB'. rewrite combineRequired_mark in HB'.
+          destruct (alltriv_good Hfol) as [_ [_ Hsw]]. assert (Hcr : combineRequired fol = false).
+          { destruct Hfol as [Ht _]. pose proof (last_triv _ Ht) as Hl. unfold combineRequired, lastKind.
+            destruct (last (map Some (bkinds fol)) None) as [[]|]; try contradiction; reflexivity. }
+          rewrite Hcr in HB'. cbn [negb] in HB'. eapply (IH1 k (s2 :: rest2) (markCombined fol) kd B'); [exact Hrest|exact Hfol|exact HB'].
+    - intros k s isLast cur kd kk B Hs Hc Hk H. destruct k as [|k]; [discriminate|]. cbn [ny] in Hs. rewrite rw_stmt_S in H.
+      destruct s as [a|v|b|ini cnd th el|ini tag cases|ini cnd post b| | | | |e]; try discriminate.
+      + eapply Hpushk; eauto.
+      + destruct (bind_ok _ _ H) as [fol [Hf H']]. rewrite (Hsub k b KDelay fol Hs Hf) in H'. eapply Hpushk; eauto.
+      + destruct (bind_ok _ _ H) as [c [Hc' H']]. pose proof (IH3 (S k) (SIf ini cnd th el) cur kd c Hs Hc Hc') as Hc2.
+        destruct isLast; [eapply gln_good; eauto|eapply Hk; eauto].
+      + eapply (IH5 (S k)); [exact Hs|exact Hc| |exact H]. intros c0 B0 Hc0 H0.
+        destruct isLast; [|eapply Hk; eauto].
+        pose proof Hc0 as [Ht0 Hk0]. pose proof (last_triv _ Ht0) as Hl. unfold lastKind in H0.
+        destruct (last (map Some (bkinds c0)) None) as [[]|]; try contradiction; exact (Hk c0 B0 Hc0 H0).
+      + eapply (IH4 (S k)); eauto.
+      + apply alltriv_good. eapply alltriv_push; eauto.
+      + apply alltriv_good. eapply alltriv_push; eauto.
+      + eapply Hpushk; eauto.
+      + apply alltriv_good. eapply alltriv_push; eauto.
+      + eapply Hpushk; eauto.
+    - intros k s cur kd c' Hs Hc H. destruct k as [|k]; [discriminate|]. cbn [ny] in Hs. rewrite rw_if_S in H.
+      destruct s as [a|v|b|init c th el|ini tag cases|ini cnd post b| | | | |e]; try discriminate.
+      apply andb_prop in Hs. destruct Hs as [Hs He]. apply andb_prop in Hs. destruct Hs as [Hi Ht].
+      rewrite (init_ok_hasYo _ Hi) in H. destruct (bind_ok _ _ H) as [body [Hb H']].
+      rewrite (Hsub k th KIf body Ht Hb) in H'.
+      destruct el as [|eb|alt].
+      + eapply alltriv_push; eauto.
+      + destruct (bind_ok _ _ H') as [els [Hels H'']]. rewrite (Hsub k eb KIf els He Hels) in H''. cbn [andb] in H''. eapply alltriv_push; eauto.
+      + destruct (bind_ok _ _ H') as [els [Hels H'']].
+        pose proof (IH3 k alt (mkBlock KIf) KIf els He (conj eq_refl eq_refl) Hels) as Hals.
+        destruct (alltriv_good Hals) as [Hm _]. rewrite Hm in H''. cbn [andb] in H''. eapply alltriv_push; eauto.
+    - intros k init c post b cur kd kk B Hs Hc Hk H. destruct k as [|k]; [discriminate|]. cbn [ny] in Hs.
+      apply andb_prop in Hs. destruct Hs as [Hs Hb]. apply andb_prop in Hs. destruct Hs as [Hi Hp].
+      rewrite rw_for_S in H. destruct (bind_ok _ _ H) as [body [Hbody H']]. cbv zeta in H'.
+      rewrite (init_ok_hasYo _ Hi), (init_ok_hasYo _ Hp), (Hsub k b KFor body Hb Hbody) in H'. cbn [negb andb] in H'.
+      eapply Hpushk; eauto.
+    - intros k init tag cases cur kd kk B Hs Hc Hk H. destruct k as [|k]; [discriminate|]. cbn [ny] in Hs.
+      apply andb_prop in Hs. destruct Hs as [Hi Hcs].
+      rewrite rw_switch_S in H. destruct (bind_ok _ _ H) as [[cases' allTrivial] [Hrc H']].
+      assert (allTrivial = true).
+      { clear - Hcs Hrc Hsub. revert cases' allTrivial Hrc. induction cases as [|[lab b] r IHr]; intros cases' allTrivial Hrc.
+        - cbn in Hrc. inversion Hrc; reflexivity.
+        - cbn [rw_cases] in Hrc. fold (rw_cases f) in Hrc. cbn [forallb snd] in Hcs. apply andb_prop in Hcs. destruct Hcs as [Hb Hr].
+          destruct (bind_ok _ _ Hrc) as [cb [Hcb Hrc']]. destruct (bind_ok _ _ Hrc') as [[r' tr] [Hr' Hrc'']].
+          inversion Hrc''; subst. rewrite (Hsub k b KSwitch cb Hb Hcb), (IHr Hr r' tr Hr'). reflexivity. }
+      subst allTrivial. rewrite (init_ok_hasYo _ Hi) in H'. cbn [negb andb] in H'. eapply Hpushk; eauto.
+  Qed.
+
   Lemma pass2_correct f :
     (forall k ss cur B, supps k ss = true -> Forall srcok (bstmts cur) -> combineRequired cur = false ->
         rw_stmts f ss cur = OK B ->
@@ -1794,15 +1988,21 @@ Section C.
         - cbn [rw_cases] in Hcs. fold (rw_cases f) in Hcs.
           destruct (bind_ok _ _ Hcs) as [cb [Hcb Hcs']]. destruct (bind_ok _ _ Hcs') as [[r' tr] [Hr' Hcs'']].
           inversion Hcs''; subst. cbn [forallb snd] in Hc. apply andb_prop in Hc. destruct Hc as [Hb Hr].
-          apply clause_ok_inv in Hb. destruct Hb as [Hb1 [Hb2 [Hb3 Hb4]]].
+          apply clause_ok_inv in Hb. destruct Hb as [Hb1 Hb2].
           constructor; [|eapply IHr; eauto]. cbn [fst].
-          split; [reflexivity|]. split; [eapply Hsub; eauto|]. split; [eapply supps_srcok; exact Hb1|].
-          intros n w w'. split.
-          + intros E. assert (Hf : fitsb (S k) (SBlock b) = true) by exact Hb2.
-            pose proof (@has_break_sound _ _ _ aden cden tden kval yden env (S k) (SBlock b) (S n) w Hf Hb3) as Hnb.
-            rewrite exec_S in Hnb. eapply Hnb; eauto.
-          + intros E. pose proof (proj1 (proj2 (ok_exec U V P aden cden tden kval yden env n)) k true true false b w _ Hb4 E) as Hok.
-            cbn in Hok. discriminate. }
+          assert (Hbsrc : Forall srcok b) by (eapply supps_srcok; exact Hb1).
+          split; [reflexivity|]. split; [eapply Hsub; eauto|]. split; [exact Hbsrc|].
+          destruct Hb2 as [Hny|[Hf2 [Hb3 Hb4]]].
+          + (* no Yield in the clause: the rewriter re-emitted its statements *)
+            right. cbn [snd].
+            destruct (proj1 (rw_ny f) k b (mkBlock KSwitch) KSwitch cb Hny (conj eq_refl eq_refl) Hcb) as [_ [_ Hcr]].
+            eapply (proj1 (rw_triv f) b (mkBlock KSwitch) cb Hbsrc (Forall_nil _) eq_refl Hcb). apply Hcr. reflexivity.
+          + left. intros n w w'. split.
+            * intros E. assert (Hf : fitsb (S k) (SBlock b) = true) by exact Hf2.
+              pose proof (@has_break_sound _ _ _ aden cden tden kval yden env (S k) (SBlock b) (S n) w Hf Hb3) as Hnb.
+              rewrite exec_S in Hnb. eapply Hnb; eauto.
+            * intros E. pose proof (proj1 (proj2 (ok_exec U V P aden cden tden kval yden env n)) k true true false b w _ Hb4 E) as Hok.
+              cbn in Hok. discriminate. }
       set (after := fun c2 : blk =>
              if allTrivial then c3 <- push c2 (SSwitch None tag cases) KTrivial ;; kk c3
              else comb c2 (fun c3 => c4 <- push c3 (SSwitch None tag cases') KSwitch ;; kk c4)) in HB'.
